@@ -14,13 +14,16 @@ import (
 // FramerScenario (C06): mode "stream" feeds Bytes to a connected BaseClient after CONNACK;
 // mode "parse" calls the real parser of packet type T on (F, Body).
 type FramerScenario struct {
-	ID    string           `json:"id"`
-	Mode  string           `json:"mode"`
-	Bytes []int            `json:"bytes,omitempty"`
-	Split int              `json:"split,omitempty"` // deliver the stream in chunks of this many bytes (0: at once)
-	T     int              `json:"t,omitempty"`
-	F     int              `json:"f,omitempty"`
-	Body  []int            `json:"body,omitempty"`
+	ID    string `json:"id"`
+	Mode  string `json:"mode"`
+	Bytes []int  `json:"bytes,omitempty"`
+	Split int    `json:"split,omitempty"` // deliver the stream in chunks of this many bytes (0: at once)
+	T     int    `json:"t,omitempty"`
+	F     int    `json:"f,omitempty"`
+	Body  []int  `json:"body,omitempty"`
+	// At: where the stream is placed: "" after the connection is established (default), "noconnack" instead of the
+	// CONNACK, "withconnack" directly behind the CONNACK in the same segment (before Connect has returned)
+	At    string           `json:"at,omitempty"`
 	Batch []FramerScenario `json:"batch,omitempty"`
 }
 
@@ -126,13 +129,37 @@ func runFramer(sc *FramerScenario) *FramerResult {
 		res.HO = append(res.HO, FramerMsg{T: ints([]byte(m.Topic)), P: ints(m.Payload), Q: int(m.QoS), R: m.Retain, D: m.Dup, ID: int(m.ID)})
 		mux.Serve(m)
 	}))
-	if _, err := cli.Connect(ctx, "framer"); err != nil {
+	stream := bytesOf(sc.Bytes)
+	if sc.At != "" {
+		// the broker's first bytes are scripted: CONNECT is not answered by the broker model
+		w.Plan.ConnAcks = []netsim.ConnAckPlan{{Silent: true}}
+		cret := make(chan error, 1)
+		go func() {
+			_, err := cli.Connect(ctx, "framer")
+			cret <- err
+		}()
+		waitWrites(w.Rec, 1)
+		t0 := w.Conn(1)
+		first := stream
+		if sc.At == "withconnack" {
+			first = append(netsim.ConnAck(false, 0), stream...)
+		}
+		t0.SendRaw(first, "raw")
+		select {
+		case <-cret:
+		case <-time.After(3 * time.Second):
+			res.Res = "Connect did not return"
+			return res
+		}
+		stream = nil
+	} else if _, err := cli.Connect(ctx, "framer"); err != nil {
 		res.Res = "connect: " + err.Error()
 		return res
 	}
 	t := w.Conn(1)
-	stream := bytesOf(sc.Bytes)
-	if sc.Split > 0 {
+	if len(stream) == 0 {
+		// already delivered
+	} else if sc.Split > 0 {
 		for i := 0; i < len(stream); i += sc.Split {
 			j := i + sc.Split
 			if j > len(stream) {
